@@ -91,7 +91,7 @@ class CaselessDict(OrderedDict):
             return True
         if not isinstance(other, Mapping):
             return False
-        return dict(self.items()) == dict(other.items())
+        return dict(self.items()) == dict(CaselessDict(other).items())
 
     def __ne__(self, other):
         return not self == other
